@@ -509,7 +509,7 @@ func asyncOrder(m *meta, rng *rand.Rand, round int) {
 func closeRaces(m *meta, rng *rand.Rand, round int) {
 	conf := kioshun.Config{MaxSize: pick(rng, []int64{0, 4, 64, 64}), ShardCount: pick(rng, []int{1, 2}), WriteBufferSize: 2, WriteBatchSize: 1,
 		EvictionPolicy: pick(rng, []kioshun.EvictionPolicy{kioshun.LRU, kioshun.SieveTinyLFU, kioshun.SieveTinyLFU, kioshun.LFU}), StatsEnabled: true,
-		CleanupInterval: pick(rng, []time.Duration{0, time.Millisecond})}
+		CleanupInterval: pick(rng, []time.Duration{0, time.Millisecond, time.Hour, 5 * time.Minute})}
 	ctx := fmt.Sprintf("close round %d cfg %+v", round, conf)
 	base := runtime.NumGoroutine()
 	var c *kioshun.Cache[int, int]
